@@ -129,6 +129,9 @@ def b_cmp(op, a, b):
     return B('cmp', op, a, b)
 
 
+CLOSURE_ALIAS = {}     # closure def path -> alias used when printing (set by sibling-comparison rules)
+
+
 class St:
     """Struct / enum variant / tuple / array / closure environment.
     fields: dict name -> value (tuples/arrays use integer keys).  `base` (a Sym) supplies fields
@@ -147,6 +150,8 @@ class St:
 
     def __repr__(self):
         nm = self.adt.split('::')[-1] if isinstance(self.adt, str) else str(self.adt)
+        if isinstance(self.adt, str) and self.adt.startswith('closure:') and self.adt[8:] in CLOSURE_ALIAS:
+            nm = '{closure:%s}' % CLOSURE_ALIAS[self.adt[8:]]
         if self.variant and self.variant != nm:
             nm += '::' + self.variant
         inner = ', '.join('%s: %r' % (k, v) for k, v in self.fields.items())
